@@ -20,6 +20,19 @@ Scenario families (gen_scenarios; every family rotates over the layout classes a
                              bitfield / have-all arrived before the metadata and must be replayed afterwards)
   magnet_metastall           magnet link, ParallelMetadataDownloads peers that advertise ut_metadata, take the requests and stall for ever;
                              an honest seeder joins later: the metadata must still arrive and the download complete
+  lose_files_start           after completion: Stop, one / some / all files of the torrent vanish from the storage (user deletes a file,
+                             partial restore), Start: the resume bitfield must not be trusted for them (claims judged against the storage
+                             truth from the moment the files are open again), they are fetched again, completion expected again;
+                             on the recording storage and on the real file system
+  realfs                     the session's own file storage on a real directory (writes unobserved, files compared at completion and at the
+                             end): empty directory or pre-existing files that are right / partly wrong / absent / LONGER than the metainfo's
+                             file (older, bigger version; data in a zero-length file) / shorter; optionally followed by damage+Verify+Start
+                             or by lose_files_start
+  endgame_orphan             two stalling peers each swallow the request for one piece, an honest seeder joins, finishes the rest, enters
+                             end-game mode and duplicates one of the two pieces; at that moment the other stalling peer hangs up: its piece
+                             is unrequested again AFTER end-game mode was entered and must still be asked from the honest peer
+  ws_corrupt_slots           as many web seeds serving an outdated copy as there are web-seed download slots (Config.WebseedMaxDownloads 1, 2
+                             or the default 4), listed before the honest web seed, no peer: every hash failure must give its slot back
   ws_pair_corrupt (heavy)    48..72 pieces of 64 or 128 KiB (web-seed requests span several pieces), two web seeds, one serving an outdated copy
                              (every piece wrong), no peer or a late honest peer: completion from the honest web seed
   ws_many (heavy)            48..160 pieces, multi-file (a file boundary in almost every web-seed range), two honest (slow) web seeds and a
@@ -63,12 +76,19 @@ def gen_scenarios(rng, n, focus):
     if focus == "c01":
         fams = ["sole_corrupt"] * 4 + ["sole_corruptclose"] * 3 + ["wronghash"] * 4 + ["liar_and_honest"] * 4 + ["ignoring"] * 3 + ["dropping"] * 3 + ["ws_corrupt"] * 2 + \
                ["ws_and_liar"] * 2 + ["stopstart"] * 3 + ["partial_liars"] * 2 + ["honest"] + \
-               ["write_fault"] * 4 + ["damage_verify_start"] * 3 + ["magnet"] * 3 + ["magnet_prefill"] * 2 + ["prefill"] * 2
+               ["write_fault"] * 4 + ["damage_verify_start"] * 3 + ["magnet"] * 3 + ["magnet_prefill"] * 2 + ["prefill"] * 2 + \
+               ["lose_files_start"] * 4 + ["realfs"] * 4 + ["ws_corrupt_slots"] * 1
     else:
         fams = ["honest"] * 3 + ["ws_only"] * 3 + ["ws_and_peer"] * 2 + ["split_have"] * 2 + ["dropping"] * 2 + ["ignoring"] * 2 + \
                ["listen"] * 1 + ["liar_and_honest"] * 2 + ["choke_inflight"] * 3 + ["choke_cycle"] * 3 + ["af_reject"] * 2 + ["ws_and_staller"] * 2 + \
                ["write_fault"] * 2 + ["damage_verify_start"] * 2 + ["magnet"] * 2 + ["magnet_prefill"] * 4 + ["prefill"] * 1 + \
-               ["magnet_metastall"] * 2
+               ["magnet_metastall"] * 2 + ["lose_files_start"] * 2 + ["realfs"] * 2 + ["endgame_orphan"] * 3 + ["ws_corrupt_slots"] * 3
+    # round-3 families (lose_files_start, realfs, endgame_orphan, ws_corrupt_slots) are OFF by default: they were run on the unchanged
+    # tree only in small development batches, not yet in a full check run. VERIF_R3_FAMILIES=all (or a comma list) enables them.
+    r3all = {"lose_files_start", "realfs", "endgame_orphan", "ws_corrupt_slots"}
+    r3 = os.environ.get("VERIF_R3_FAMILIES", "")
+    r3_on = r3all if r3 == "all" else set(x for x in r3.split(",") if x in r3all)
+    fams = [f for f in fams if f not in r3all or f in r3_on]
     k = 0
     used = {}
     while len(out) < n:
@@ -159,6 +179,31 @@ def gen_scenarios(rng, n, focus):
         elif fam == "prefill":
             ps, ws = src_mix()
             add(layout=lay, seq=seq, honest=True, prefill=rng.choice(["partial", "onebad", "zeros", "somefiles"]), peers=ps, webseeds=ws)
+        elif fam == "lose_files_start":
+            ps, ws = src_mix()
+            add(layout=lay, seq=seq, honest=True, after="lose_files_start", loseFiles=rng.choice(["first", "last", "alternate", "allbutfirst", "all"]),
+                realfs=rng.random() < 0.4, peers=ps, webseeds=ws, timeoutMs=10000)
+        elif fam == "realfs":
+            ps, ws = src_mix()
+            pf = rng.choice(["longer", "longer", "longerbad", "shorter", "partial", "somefiles", "full", "none"])
+            kw = {}
+            x = rng.random()
+            if x < 0.2:
+                kw = dict(after="damage_verify_start", damagePiece=rng.randint(0, 5))
+            elif x < 0.4:
+                kw = dict(after="lose_files_start", loseFiles=rng.choice(["first", "last", "alternate", "allbutfirst"]))
+            add(layout=lay, seq=seq, honest=True, realfs=True, prefill=pf, peers=ps, webseeds=ws, timeoutMs=10000, **kw)
+        elif fam == "endgame_orphan":
+            add(layout=rng.choice(["single", "multi", "odd", "padmid", "many8", "many12"]), unit=rng.choice([1024, 2048]),
+                seq=rng.random() < 0.25, honest=True, endgame=rng.choice([2, 20, 20]), timeoutMs=8000,
+                peers=[{"name": "s1", "ip": "127.0.0.2", "policy": "stall", "k": 1, "have": "all", "noFast": rng.random() < 0.5},
+                       {"name": "s2", "ip": "127.0.0.3", "policy": "stall", "k": 1, "have": "all", "noFast": rng.random() < 0.5},
+                       dict(honest, trigger="dropstallers", joinAfterMs=20)])
+        elif fam == "ws_corrupt_slots":
+            slots = rng.choice([1, 1, 2, 0])        # 0 = default configuration (4 slots)
+            m = (slots or 4) + rng.choice([0, 0, 1])
+            add(layout=rng.choice([lay, "many12", "many16", "many24"]), unit=rng.choice([1024, 2048]), seq=seq, honest=True, wsMax=slots,
+                webseeds=[{"policy": "stale"}] * m + [{"policy": "honest"}], timeoutMs=12000)
         elif fam == "magnet":
             ps = [dict(honest)]
             if rng.random() < 0.5:
@@ -293,7 +338,7 @@ def project(raw_path, crashed_ids=()):
         a.append({"ev": "init", "np": ini["np"], "plen": ini["plen"], "honest": bool(ini["honest"]),
                   # a piece without data is trivially correct in storage; good0 = pieces already right in the pre-existing files
                   "good": sorted(set([i for i, n in enumerate(ini.get("nonpad", [])) if n == 0]) | set(ini.get("good0") or [])),
-                  "sid": sid,
+                  "sid": sid, "obsw": not ini.get("realfs"),
                   "layout": ini["layout"],
                   "peers": [{"ip": p["ip"], "have": have_list(p.get("have"), ini["np"])} for p in ini["peers"]]})
         for e in evs[1:]:
@@ -331,8 +376,10 @@ def project(raw_path, crashed_ids=()):
                 a.append({"ev": "expect", "what": e["what"], "ok": bool(e["ok"]), "sentBad": e["sentBad"], "ip": e["ip"]})
             elif k == "redial":
                 a.append({"ev": "redial", "ip": e["ip"], "accepted": bool(e["accepted"])})
-            elif k in ("disk", "disk-mutate"):
+            elif k in ("disk", "disk-mutate", "disk-lost"):
                 a.append({"ev": k, "class": e["class"]})
+            elif k == "drop":
+                a.append({"ev": "drop"})
             elif k == "resume":
                 a.append({"ev": "resume", "bits": e["bits"]})
         out[sid] = a
@@ -345,7 +392,9 @@ def fam_of(sc):
         ("|ws:" + ",".join(w["policy"] for w in sc.get("webseeds", [])) if sc.get("webseeds") else "") + \
         ("|timing" + ("-" + sc["timing"][0]["do"] if sc["timing"][0].get("do") != "stopstart" else "") if sc.get("timing") else "") + \
         ("|magnet" if sc.get("magnet") else "") + ("|prefill-" + sc["prefill"] if sc.get("prefill") else "") + \
-        ("|after-" + sc["after"] if sc.get("after") else "")
+        ("|after-" + sc["after"] + ("-" + sc["loseFiles"] if sc.get("loseFiles") else "") if sc.get("after") else "") + \
+        ("|realfs" if sc.get("realfs") else "") + ("|wsmax%d" % sc["wsMax"] if sc.get("wsMax") else "") + \
+        ("|dropstallers" if any(p.get("trigger") for p in sc.get("peers", [])) else "")
 
 
 TIME_BASED = ("C10.live", "C10.idle")      # bounded-time judgements: re-executed in isolation before they are reported
